@@ -44,6 +44,37 @@ def scale_job(job):
     return ev
 
 
+def scale_threads_job(job):
+    """the distance law with several events in flight on one kernel object: a batch of > 100 events through CphotAng(Z).__call__ under
+    the threaded scheduler, each compared with the 525 km reference of ITS OWN event"""
+    use_repo()
+    import warnings
+    warnings.simplefilter("ignore")
+    import dask
+    from nuspacesim.simulation.eas_optical.cphotang import CphotAng
+    quiet_progress()
+    rng = np.random.default_rng(job["seed"])
+    n = job["n"]
+    beta = np.radians(rng.uniform(1.0, 42.0, n))
+    alt = rng.uniform(0.0, 18.0, n)
+    E = 10.0 ** rng.uniform(-2.0, 2.0, n)
+    ref = CphotAng(525.0)
+    R = float(ref.RadE)
+    refs = [ref.run(beta[i], alt[i], E[i], 0.0, 0.0, None) for i in range(n)]
+    ev = []
+    Z = job["Z"]
+    with dask.config.set(scheduler="threads", num_workers=4):
+        d, th = CphotAng(Z)(beta, alt, E, np.zeros(n), np.zeros(n), None)
+    for i in range(n):
+        if float(refs[i][0]) == 0.0 and float(d[i]) == 0.0:
+            continue
+        ev.append({"kind": "scale", "beta": bits(beta[i]), "alt": bits(alt[i]), "R": bits(R), "Z": bits(Z), "rhoZ": bits(d[i]), "thZ": bits(th[i]),
+                   "rhoRef": bits(refs[i][0]), "thRef": bits(refs[i][1]),
+                   "_m": {"beta_deg": float(np.degrees(beta[i])), "alt": float(alt[i]), "E": float(E[i]), "Z": Z, "rhoZ": float(d[i]),
+                          "rho525": float(refs[i][0]), "batch": "threads-4"}})
+    return ev
+
+
 def eas_job(job):
     use_repo()
     import warnings
@@ -141,7 +172,7 @@ def _was(log, key):
 
 
 def _dispatch(job):
-    return {"scale": scale_job, "eas": eas_job, "geo": geo_job}[job["t"]](job)
+    return {"scale": scale_job, "scale-threads": scale_threads_job, "eas": eas_job, "geo": geo_job}[job["t"]](job)
 
 
 def run(tier="quick", seed=0):
@@ -155,6 +186,8 @@ def run(tier="quick", seed=0):
     for j in range(14 if thorough else 7):
         jobs.append({"t": "eas", "seed": seed * 100 + 50 + j, "n": 300 if thorough else 36, "cfgs": [cfgs[j % 4], cfgs[(j + 1) % 4]]})
     jobs.append({"t": "geo", "seed": seed * 100 + 99, "n": 2000 if thorough else 200})
+    for Z in ((33.0, 2000.0) if thorough else (33.0,)):
+        jobs.append({"t": "scale-threads", "seed": seed * 100 + 98, "n": 230, "Z": Z})
     res = par.pmap(_dispatch, jobs, workers=14)
     ev = [e for r in res for e in r]
     pr.validate("TraceOptical", ev, name="optical-chain", chunks=8)
